@@ -1453,7 +1453,9 @@ class SyncObj(object):
     def __loadDumpFile(self, clearJournal):
         try:
             data = self.__serializer.deserialize()
-            if clearJournal:
+            if clearJournal and data[0] is not None:
+                # (With a user-supplied deserializer the object state has already been replaced at this
+                # point, so the snapshot has to be loaded completely in any case.)
                 # A snapshot received from the leader is not loaded when it is not newer than what
                 # this node has already applied (loading it would move the state machine backwards
                 # and re-apply entries), or when the log already holds the snapshot's last entry
